@@ -44,6 +44,7 @@ type genRun struct {
 	Trace    string
 	Wall     time.Duration
 	Crashed  bool
+	NotGofmt bool
 }
 
 type traceOp struct {
